@@ -245,6 +245,14 @@ package tars
 //@   requires 0 - 2147483648 < s.queueLen && s.queueLen < 2147483647
 //@   let q0 = s.queueLen
 //@   let req0 = msg.Req
+// C15 (the health record sees every outcome): a failed send and a timeout each count one failure on the adapter
+// that was used, a one-way send and a reply each count one success
+//@   site ).failAdd#0 assert [C15] $0 == adp
+//@   site ).failAdd#1 assert [C15] $0 == adp && $sel0 == 0
+//@   sites ).failAdd = 2
+//@   site ).successAdd#0 assert [C15] $0 == adp
+//@   site ).successAdd#1 assert [C15] $0 == adp && $sel0 == 1
+//@   sites ).successAdd = 2
 //@   site AddInt32#0 assert [C09] $0 == addr(s.queueLen) && $1 == 1
 //@   sites AddInt32 = 1
 //@   let id0 = msg.Req.IRequestId
@@ -345,6 +353,17 @@ package tars
 //
 //@ pred epListOK(e) = forall k: iface {select(e.epList.val, k)} :: select(e.epList.dom, k) ==> (istype(select(e.epList.val, k), "*AdapterProxy") && ival(select(e.epList.val, k)) != nil)
 //
+// A direct address list "obj@ep1:ep2:...": the manager stays trusted for its callers; checked here (argsonly, C18:
+// every part of the list is one endpoint) is that the list is split at every ':' and each part is parsed on its own.
+//@ func newEndpointManager
+//@   trusted
+//@   argsonly
+//@   site strings.Split#0 assert [C18] $1 == ":" && $0 == endpoints
+//@   sites strings.Split = 1
+//@   sites SplitN = 0
+//@   site Parse#0 assert [C18] $0 == ends[i]
+//@   sites endpoint.Parse = 1
+//
 //@ func NewAdapterProxy
 //@   trusted
 //@   allocates
@@ -401,6 +420,12 @@ package tars
 //@   sites ConsistentHash).Remove = 1
 //@   sites ModHash).Remove = 1
 //@   site Store#0 assert [C15] needCheck && !adp.status
+// a candidate is queued for probing only when the pending list does not hold it yet (so it is probed once, not once
+// per status round): the flag loaded from checkAdapterList just before decides
+//@   site Map).Load#1 assert [C15] $0 == e.checkAdapterList
+//@   site Map).Load#1 ghostafter e.glisted = $ret1
+//@   site Store#0 assert [C15] !e.glisted && $0 == e.checkAdapterList
+//@   sites Map).Load = 2
 //@   loop 0 invariant e != nil && e.comm != nil && e.comm.Client != nil && epListHealthy(e) && e.activeEpRoundRobin != nil && e.activeEpConHash != nil && e.activeEpModHash != nil
 //@   loop 1 invariant e != nil && e.comm != nil && e.comm.Client != nil && epListHealthy(e) && e.activeEpRoundRobin != nil && e.activeEpConHash != nil && e.activeEpModHash != nil && adp != nil && firstTime && !adp.status && adp.failCount >= overN
 //@   loop 0 modifies everything
